@@ -14,7 +14,7 @@ coq: tools
 	.work/genconsts coq/Gen/Consts.v /repo
 	cd coq && coq_makefile -f _CoqProject -o Makefile
 	cd coq && timeout 3000 $(MAKE) -j16
-	! grep -rnE '\b(Admitted|admit|Axiom|Parameter|Conjecture|bypass_check)\b|Unset Guard' coq --include='*.v'
+	python3 checklib/forbidden.py coq
 
 clean:
 	rm -rf .work
